@@ -83,3 +83,80 @@ def FKInv (fk : Fk) (parents children : List Row) : Prop :=
   ∀ c ∈ children, hasNull (keyOf fk.cols c) = false → ∃ p ∈ parents, keyOf fk.pcols p = keyOf fk.cols c
 
 end VibeProof.Dml
+
+/-! ### several tables, several foreign keys, the recursive cascade (delete/integrity.rs)
+
+`check_no_child_references(db, table, row)` collects, against the database as it is on entry,
+the foreign keys that reference `table` and have a referrer of the row's key, then performs
+their actions in order; `cascade_delete` first calls `check_no_child_references` for every
+referrer and only then deletes the referrers (by row equality).  The Rust code has no fuel: the
+recursion depth is bounded only by the data.  The model takes fuel and reports `CErr.fuel` when
+it runs out, so that "terminates" is a theorem, not a default. -/
+namespace VibeProof.Dml
+open VibeProof
+
+structure FkDecl where
+  child : Nat
+  parent : Nat
+  cols : List Nat
+  pcols : List Nat
+  onDelete : Action
+  deriving Repr, Inhabited
+
+def FkDecl.fk (d : FkDecl) : Fk := { cols := d.cols, pcols := d.pcols }
+
+/-- tables by number -/
+abbrev Db := Nat → List Row
+
+def Db.set (db : Db) (i : Nat) (rows : List Row) : Db := fun j => if j = i then rows else db j
+
+inductive CErr where
+  | reject   -- ConstraintViolation: NO ACTION / RESTRICT with a referrer
+  | fuel     -- recursion deeper than the fuel (the real code would still be recursing)
+  deriving DecidableEq, Repr, Inhabited
+
+/-- run `rec` on every victim, threading the database -/
+def runVictims (rec : Db → Row → Except CErr Db) : List Row → Db → Except CErr Db
+  | [], db => .ok db
+  | v :: vs, db =>
+    match rec db v with
+    | .error e => .error e
+    | .ok db' => runVictims rec vs db'
+
+/-- check every victim, then delete the victims from their table (`delete_where(|r| r == victim)`) -/
+def deleteVictims (rec : Db → Row → Except CErr Db) (db : Db) (t : Nat) (victims : List Row) : Except CErr Db :=
+  match runVictims rec victims db with
+  | .error e => .error e
+  | .ok db1 => .ok (db1.set t ((db1 t).filter (fun r => !(victims.contains r))))
+
+/-- one collected action -/
+def applyAct (rec : Nat → Db → Row → Except CErr Db) (row : Row) (d : FkDecl) (db : Db) : Except CErr Db :=
+  let k := keyOf d.pcols row
+  match d.onDelete with
+  | .noAction => .error .reject
+  | .cascade => deleteVictims (rec d.child) db d.child ((db d.child).filter (d.fk.refers k))
+  | .setNull => .ok (db.set d.child ((db d.child).map (fun c => if d.fk.refers k c then d.fk.nullCols c else c)))
+
+def runActs (rec : Nat → Db → Row → Except CErr Db) (row : Row) : List FkDecl → Db → Except CErr Db
+  | [], db => .ok db
+  | d :: ds, db =>
+    match applyAct rec row d db with
+    | .error e => .error e
+    | .ok db' => runActs rec row ds db'
+
+/-- `check_no_child_references` -/
+def checkRow (fks : List FkDecl) : Nat → Db → Nat → Row → Except CErr Db
+  | 0, _, _, _ => .error .fuel
+  | f + 1, db, t, row =>
+    let acts := fks.filter (fun d => d.parent == t && (db d.child).any (d.fk.refers (keyOf d.pcols row)))
+    runActs (fun child db v => checkRow fks f db child v) row acts db
+
+/-- `DeleteExecutor`: integrity handling for every selected row, then the rows are deleted -/
+def deleteWithFks (fks : List FkDecl) (fuel : Nat) (db : Db) (t : Nat) (sel : Row → Bool) : Except CErr Db :=
+  deleteVictims (fun db v => checkRow fks fuel db t v) db t ((db t).filter sel)
+
+/-- every foreign key of the schema holds -/
+def DbInv (fks : List FkDecl) (db : Db) : Prop :=
+  ∀ d ∈ fks, FKInv d.fk (db d.parent) (db d.child)
+
+end VibeProof.Dml
